@@ -744,7 +744,7 @@ DEEP_LADDERS: Dict[str, List[int]] = {
     # depths from well inside to well beyond what an uncached run of the pinned tree accepts (edges on the pinned tree,
     # CPython 3.12, default recursion limit: not-chain / arith-left 220..260, pattern-groups 60..100, parentheses and
     # brackets 200 (tokenizer); an inheritance chain is accepted at any of these depths but cannot be PICKLED from ~200 on)
-    "not-chain": [200, 280],
+    "not-chain": [200, 260],
     "arith-left": [280],
     "pattern-groups": [80, 120],
     "inheritance-chain": [120, 260],
@@ -848,7 +848,8 @@ DEEP_CLI_THOROUGH = [("inheritance-chain", 260), ("not-chain", 200), ("arith-lef
 
 
 def deep_models(ctx: Ctx) -> List[Tuple[str, str]]:
-    out = [(f"{fam}-{d}", deep_model(fam, d)) for fam, ds in DEEP_LADDERS.items() for d in ds]
+    out = [(str(c.get("label", "corpus")), c["text"]) for c in corpus(ID) if c.get("kind") == "deep"]  # judged in the same parallel batch
+    out += [(f"{fam}-{d}", deep_model(fam, d)) for fam, ds in DEEP_LADDERS.items() for d in ds]
     if ctx.tier == "thorough":
         out += [(f"{fam}-{d}", deep_model(fam, d)) for fam, ds in DEEP_LADDERS_THOROUGH.items() for d in ds]
     return out
@@ -1005,7 +1006,7 @@ def oracle(ctx: Ctx) -> None:
         check_plumbing(ctx, False)
         _sequential(ctx, False)
     for c in corpus(ID):
-        if c.get("kind") in ("history", "cli", "idsets", "plumb", "warmwalk", "genwalk", "deep", "clitext"):
+        if c.get("kind") in ("history", "cli", "idsets", "plumb", "warmwalk", "genwalk", "clitext"):
             replay(ctx, c)
     cases = ["enum", "constrained_primitives"] if ctx.tier == "quick" else ["enum", "constrained_primitives", "deep_class_hierarchy", "list_of_classes", "list_of_primitives", "list_of_enums"]
     for target in TARGETS:
